@@ -25,14 +25,17 @@ def make(dtype, shape, layout, seed, d):
     elif layout == "noncontig" and a.ndim >= 1 and a.shape[0] >= 2: a = a[::2]
     elif layout == "transposed" and a.ndim >= 2: a = a.T
     elif layout == "reversed" and a.ndim >= 1: a = a[::-1]
-    elif layout == "memmap":
+    elif layout.startswith("memmap"):
         p = os.path.join(d, "mm_%d.bin" % seed)
         m = np.memmap(p, dtype=dt, mode="w+", shape=shp if shp else (1,)); m[...] = a if shp else a.reshape(1); m.flush(); a = m
+        if layout == "memmap_T": a = m.T
+        elif layout == "memmap_rev": a = m[::-1]
+        elif layout == "memmap_strided": a = m[1::2, ::-3] if m.ndim == 2 else m[1::3]
     return a
 
 
 def same(a, b):
-    if type(a).__name__ not in ("ndarray", "memmap") or not isinstance(b, np.ndarray): return "type"
+    if not isinstance(a, np.ndarray) or not isinstance(b, np.ndarray): return "type"
     if a.dtype != b.dtype:
         # joblib loads arrays in the native byte order on purpose (finding D18): same values, byte order normalised
         if a.dtype.newbyteorder("=") == b.dtype and a.shape == b.shape and not a.dtype.hasobject and a.astype(a.dtype.newbyteorder("=")).tobytes() == b.tobytes():
